@@ -12,22 +12,26 @@
 //
 // Proved: (easy) after the first block the value is z^((c - 1)(p^E + 1)) with c the conjugation exponent; (hard)
 // the rest raises to H with H * r(x) = S * PHI(p) as an identity of polynomials in the seed: the function raises to
-// the documented exponent d = S * (p^k - 1)/r, for every seed of the family (the multiplication over the extra
-// arguments _z is excluded by precondition).
+// the documented exponent d = S * (p^k - 1)/r, for every seed of the family (acc is the sum of the exponent vectors of the
+// extra arguments the loop has multiplied in: every one of them enters the product, on top of the first argument).
 
 package bls12377
 
 //@ func FinalExponentiation
 //@ layer module fptower.E12
 //@ option distribute
-//@ requires len(_z) == 0
 //@ ghost w = msym(mseed, E12)
 //@ ghost x = 3*w + 1
 //@ ghost mexpt = x
 //@ ghost mfrob = ((x - 1)*(x - 1)*(x*x*x*x - x*x + 1))/3 + x
+//@ ghost acc = 0
+//@ loop 0
+//@ + invariant[product] 0 <= iter && iter <= len(_z) && result == old(*z) + acc
+//@ cut after def e #1
+//@ + ghost acc = acc + *e
 //@ ghost y = 0
-//@ cut after call Mul #2
-//@ + invariant[easy] result == (msym(mconj, E12) - 1) * (mfrob*mfrob + 1) * old(*z)
+//@ cut after call SetOne #1
+//@ + invariant[easy] result == (msym(mconj, E12) - 1) * (mfrob*mfrob + 1) * (old(*z) + acc)
 //@ + havoc result
 //@ + ghost-post y = result
 //@ + ghost-post mconj = -1
